@@ -189,11 +189,18 @@ DecEv(c, t) == LET ok == DecodeOK(t) IN
              !.tid = IF ok THEN "T" ELSE "", !.sout = IF ok THEN "s" ELSE "",
              \* decoding is a function of the text: a repeated call gives what the first call gave
              !.rep = IF c.kind = "dec" THEN c.n ELSE 0, !.ok1 = ok, !.dk1 = IF ok THEN Decoded(t) ELSE ZeroK, !.s1 = IF ok THEN "s" ELSE ""]
-CertEv(c, decodes, k, o) == LET ty == TypeOf(FALSE, decodes, k, o) IN
+CertEvP(c, decodes, k, o, pres) == LET ty == TypeOf(FALSE, decodes, k, o) IN
   [E0 EXCEPT !.op = "cert", !.cs = c, !.opt = o, !.pin = PinAbs, !.ok = decodes,
-             !.present = IF c.kind = "cert" THEN Present(Encode(c.k)) ELSE {}, !.dk = IF decodes THEN k ELSE ZeroK,
+             !.present = pres,
+             !.dk = IF decodes THEN k ELSE ZeroK,
              !.tid = IF decodes THEN "T" ELSE "", !.ty = ty, !.lok = ty # "Unknown",
              !.label = IF ty # "Unknown" THEN LabelOf(ty, "T") ELSE "", !.pout = PrincipalsOf(PinAbs, ty), !.pafter = PinAbs]
+CertEv(c, decodes, k, o) == CertEvP(c, decodes, k, o, IF c.kind = "cert" THEN Present(Encode(c.k)) ELSE {})
+\* "certpair": two certificates examined back to back by one goroutine, no other decode in between: the first KeyID text lacks
+\* field c.f, the second lacks field c.m (c.f # c.m); c.n says which of the two calls the event describes, c.v in which order
+\* type and label are asked for.  Neither decodes, whatever was examined before.
+PairText(c) == Delete(Encode(c.k), IF c.n = 0 THEN c.f ELSE c.m)
+PairEv(c)   == [CertEvP(c, DecodeOK(PairText(c)), Decoded(PairText(c)), c.opt, Present(PairText(c))) EXCEPT !.rep = c.n]
 
 \* the event the design produces for a case
 Ev(c) ==
@@ -207,6 +214,7 @@ Ev(c) ==
     [] c.kind = "junk" -> [E0 EXCEPT !.op = "dec", !.cs = c]
     [] c.kind = "cert" -> CertEv(c, DecodeOK(Encode(c.k)), c.k, c.opt)
     [] c.kind = "certjunk" -> CertEv(c, FALSE, ZeroK, c.opt)
+    [] c.kind = "certpair" -> PairEv(c)
     [] c.kind = "nil"  -> [E0 EXCEPT !.op = "cert", !.cs = c, !.nil = TRUE, !.ty = "Unknown"]
     [] c.kind = "prins" -> LET pin == SubSeq(PinAbs, 1, c.n)
                                out == IF c.ty \in Types THEN PrincipalsOf(pin, c.ty) ELSE pin IN
@@ -267,13 +275,17 @@ MutCase  == At("mut")  /\ \E k \in Encodable, f \in AllFields, m \in MutOps :
 JunkCase == At("junk") /\ \E j \in JunkKinds : ev' = Ev(Cs("junk", ZeroK, "", "", 0, "absent", j, "", 0, "", ""))
 CertCase == At("cert") /\ \E k \in KeyIDs, o \in Opts : ev' = Ev(Cs("cert", k, "", "", 0, o, "", "", 0, "", ""))
 CertJunkCase == At("certjunk") /\ \E j \in JunkKinds, o \in Opts : ev' = Ev(Cs("certjunk", ZeroK, "", "", 0, o, j, "", 0, "", ""))
+\* one base value per rule of the type table (and both hardware-key values), so that a wrongly accepted text would get a known type
+PairBases == {k \in Encodable : k.usage = 0 /\ ~k.hl /\ k.tp \in {NeverTouch, CachedTouch} /\ (k.nonce => ~k.hw)}
+CertPairCase == At("certpair") /\ \E k \in PairBases, x \in Required(1), y \in Required(1), ord \in 0..1 :
+                            x # y /\ ev' = Ev(Cs("certpair", k, x, y, ord, "set", "", "", 1, "", ""))
 NilCase  == At("nil")  /\ ev' = Ev(Cs("nil", ZeroK, "", "", 0, "absent", "", "", 0, "", ""))
 PrinsCase == At("prins") /\ \E ty \in Types \cup {"other"}, n \in 0..2, r \in 0..1 :
                             ev' = Ev(Cs("prins", ZeroK, "", "", r, "absent", "", ty, n, "", ""))
 ShimCase == At("shim") /\ \E k \in {x \in KeyIDs : x.ver = 1 /\ x.usage = 0}, o \in Opts, cm \in {"none", "some"}, p \in {"agent", "hard"} :
                             ev' = Ev(Cs("shim", k, "", "", 0, o, "", "", 0, cm, p))
 Back == ev.op # "init" /\ ev' = InitEv
-Next == EncCase \/ DecCase \/ MutCase \/ JunkCase \/ CertCase \/ CertJunkCase \/ NilCase \/ PrinsCase \/ ShimCase \/ Back
+Next == EncCase \/ DecCase \/ MutCase \/ JunkCase \/ CertCase \/ CertJunkCase \/ CertPairCase \/ NilCase \/ PrinsCase \/ ShimCase \/ Back
 Spec == Init /\ [][Next]_ev
 
 C05_Step == C05_Holds(ev')
@@ -314,6 +326,11 @@ Thm_InconsistentUnknown == \A k \in KeyIDs \ Encodable, o \in Opts :
                      /\ TypeOf(FALSE, DecodeOK(Encode(k)), k, o) = "Unknown"
                      /\ Ev(Cs("cert", k, "", "", 0, o, "", "", 0, "", "")).ty = "Unknown"
                      /\ Ev(Cs("cert", k, "", "", 0, o, "", "", 0, "", "")).pout = <<>>
+\* a text lacking a required field never decodes, so both certificates of a pair are of unknown type; and the pair bases reach
+\* every known type (with the option set: the sudo siblings)
+Thm_PairUnknown == \A k \in PairBases, x \in Required(1), n \in 0..1 :
+                     LET e == Ev(Cs("certpair", k, x, x, 0, "set", "", "", n, "", "")) IN e.ty = "Unknown" /\ ~e.lok /\ e.pout = <<>> /\ ~DecodesEv(e)
+Thm_PairBasesCover == {TypeOfK(k, "set") : k \in PairBases} = {"Nonce", "Firefighter", "TouchlessSudoInAgent", "TouchSudo", "TouchlessSudo"}
 Thm_NonceHeadlessTouch == \A k \in KeyIDs : ((k.nonce \/ k.hl) /\ k.tp # NeverTouch) => ~Consistent(k)
 Thm_Precedence  == \A k \in KeyIDs, o \in Opts :
                      /\ k.nonce => TypeOfK(k, o) = "Nonce"
